@@ -376,14 +376,14 @@ fn rec_34f(c: &str) -> V {
     let b = c.as_bytes()[3];
     if b == b'D' || b == b'C' {
         let joined = format!("{}{}", &c[0..3], &c[4..]);
-        match ccy_amount(&joined, false, false) {
+        match ccy_amount(&joined, false, true) {
             Ok(mut v) => { v.insert(1, ("indicator", s(&c[3..4]))); acc(v) }
             Err(e) => e,
         }
     } else if b.is_ascii_alphabetic() {
         V::Reject("indicator")
     } else {
-        match ccy_amount(c, false, false) { Ok(v) => acc(v), Err(e) => e }
+        match ccy_amount(c, false, true) { Ok(v) => acc(v), Err(e) => e }
     }
 }
 fn rec_36(c: &str) -> V {
@@ -622,7 +622,7 @@ fn rec_balance(c: &str) -> V {
     let dc = &c[0..1];
     if dc != "D" && dc != "C" { return V::Reject("dc-mark"); }
     let Some((y, m, d)) = date6(&c[1..7]) else { return V::Reject("date.invalid"); };
-    match ccy_amount(&c[7..], false, false) {
+    match ccy_amount(&c[7..], false, true) {
         Ok(mut v) => { v.insert(0, ("value_date", CV::Date(y, m, d))); v.insert(0, ("debit_credit_mark", s(dc)));
             // zero balances are ordinary
             acc(v) }
@@ -697,7 +697,7 @@ fn rec_90(c: &str) -> V {
     if !all_ascii(c) { return V::Reject("charset=non-ascii"); }
     let Some(m) = rx!(r"^([0-9]{1,5})([^0-9].*)$").captures(c) else { return V::Reject("shape"); };
     let n: u64 = m[1].parse().unwrap();
-    match ccy_amount(&m[2], false, false) {
+    match ccy_amount(&m[2], false, true) {
         Ok(mut v) => { v.insert(0, ("number", CV::N(n))); acc(v) }
         Err(V::Unspec("amount.zero")) => { let (cur, _) = m[2].split_at(3); acc(vec![("number", CV::N(n)), ("currency", s(cur)), ("amount", CV::D("0".into()))]) }
         Err(e) => e,
